@@ -38,7 +38,13 @@ class C18(Check):
             "put into the crypto registry (and AlgorithmToHash for Ed25519) checks them at every Write / Sum during the call and "
             "runs a second Verify of the same octets there; six goroutines per buffer verify 14 shared buffers at once behind a "
             "start barrier (matching key, other material, other owner), a reader compares the octets all along. Signature field "
-            "length: appended / prepended / cut / r and s padded or stripped, RDLENGTH adjusted, every key: must fail. Model cases: sign (key-field errors, unknown algorithm, compression on/off) and verify (valid, "
+            "length: appended / prepended / cut / r and s padded or stripped, RDLENGTH adjusted, every key: must fail. SIG values "
+            "whose header and remaining fields the caller filled before Sign (owner name absent / root / the key's / the "
+            "question's / relative / 63-64-octet labels / 254-255-256 octets / no name at all / escapes / raw high octets; "
+            "Rrtype, Class, Ttl, Rdlength, TypeCovered, Labels, OrigTtl at their corners; filled like an RRSIG; a SIG unpacked "
+            "from a signed message reused; one value signing three messages in a row), every key: all oracles of a plain "
+            "message (exact size, Pack() with ARCOUNT+1 followed by one trailing `. SIG ANY 0` record whose RDATA holds the "
+            "five documented fields only, Unpack, crypto/* check, Verify, altered bits, truncations) and sign model cases. Model cases: sign (key-field errors, unknown algorithm, compression on/off) and verify (valid, "
             "bit flips steering the counts and offsets, truncations, malformed buffers, mismatched caller SIG); messages above 3000 octets as run-length recipes both sides expand (signbig/verifybig, "
             "long octet strings compared by length.sum.sum-of-prefix-sums); the last result of each goroutine. Non-trivial: "
             "input longer than a header; distinct by hash of (function, arguments, output).")
